@@ -11,7 +11,10 @@ names = args or sorted(d for d in os.listdir(S) if os.path.isdir(os.path.join(S,
 EXTRA = {"C11-I": "C11,C01", "C07-A": "C07,C04,C05", "C05-A": "C05,C04,C07", "C04-B": "C04,C07,C05", "C08-B": "C08,C03", "C03-B": "C03,C08",
          # the same change as C08-O (kernels before a sync record at equal timestamps): the backward edge it creates is what C08 judges;
          # C09 sees it only when the reported path runs through that edge
-         "C09-O": "C09,C08"}
+         "C09-O": "C09,C08",
+         # the category with symbol id 0 read as absent: C05 judges the annotation breakdown of files that begin with an annotation span; C11's
+         # digests compare runs over the SAME files (hash seed, multiprocessing), which never renumber the category
+         "C11-Q": "C11,C05"}
 # changes that need more than 65536 trace rows / 32768 host calls in one rank: thorough tier only
 TIER = {"C19-L": "thorough", "C02-O": "thorough"}
 
